@@ -215,12 +215,25 @@ impl Check for C11 {
                     st.inc("probe_reader_stream_with_completed_sibling");
                 }
             }
+            // sometimes the innermost chain master (when known-size) is padded with a Void element so that its content is
+            // exactly 127 bytes: a size of 2^(7k)-1 has to be written in a wider field, and must still be read as a size
+            let mut pad: Option<Node> = None;
+            if filler.is_none() && pr.chance(1, 6) && c.chain.last().map_or(false, |x| !x.1) && c.spec.allowed(crate::spec::VOID_ID, &ids) {
+                let probe_len = enc::encode(std::slice::from_ref(&leaf)).bytes.len();
+                if probe_len + 2 <= 127 {
+                    pad = Some(Node::leaf(crate::spec::VOID_ID, crate::val::Val::B(vec![0u8; 127 - probe_len - 2])));
+                    st.inc("probe_reader_stream_with_boundary_length_master");
+                }
+            }
             let mut node = leaf;
             let mut first = true;
             for (id, unk) in c.chain.iter().rev() {
                 let mut kids = Vec::new();
                 if first {
                     if let Some(f) = filler.take() {
+                        kids.push(f);
+                    }
+                    if let Some(f) = pad.take() {
                         kids.push(f);
                     }
                     first = false;
